@@ -31,6 +31,14 @@ pub fn is_color<A: Attr>() -> bool {
 
 /// Judges all fragments of one triangle.
 pub fn judge<A: Attr>(rep: &mut Report, p: &[[f32; 3]; 3], a: &[[f32; MAXC]; 3]) {
+    judge_with::<A>(rep, p, a, 0.001, false)
+}
+
+/// `pos_slack`: the positional tolerance in px under which values are judged
+/// (0.001 px, C04's band, in the strict domain). With `large` (coordinates
+/// beyond 128 px), value errors are reported under the signature of known
+/// finding F9's family; finiteness and position stay strict.
+pub fn judge_with<A: Attr>(rep: &mut Report, p: &[[f32; 3]; 3], a: &[[f32; MAXC]; 3], pos_slack: f64, large: bool) {
     let v: [P2; 3] = std::array::from_fn(|i| (p[i][0] as f64, p[i][1] as f64));
     let area = geo::tri_area2(&v).abs() * 0.5;
     if !(area > 1e-6) {
@@ -95,7 +103,7 @@ pub fn judge<A: Attr>(rep: &mut Report, p: &[[f32; 3]; 3], a: &[[f32; MAXC]; 3])
                 return;
             }
             let (ex, ey) = ((f.pos[0] as f64 - centre.0).abs(), (f.pos[1] as f64 - centre.1).abs());
-            rep.worst("frag_pos_offset_px", ex.max(ey), 1e-3, String::new);
+            rep.worst(if large { "frag_pos_offset_px(large extent)" } else { "frag_pos_offset_px" }, ex.max(ey), 1e-3, String::new);
             if ex > 1e-3 || ey > 1e-3 {
                 rep.violation(
                     "raster.frag_not_at_centre",
@@ -118,9 +126,18 @@ pub fn judge<A: Attr>(rep: &mut Report, p: &[[f32; 3]; 3], a: &[[f32; MAXC]; 3])
             let ze = b[0] * z[0] + b[1] * z[1] + b[2] * z[2];
             // depth: 0.5 % of the range of the vertex depths (+ f32 rounding
             // floor + first-order positional slack of 0.001 px, DESIGN §10-2)
-            let tol_z = 0.005 * (zhi - zlo) + 1e-5 * zabs + 0.001 * gz_len;
+            // strict tolerance; and, for large extents, the one that
+            // attributes an error to known finding F9's mechanism: a
+            // positional error of up to `pos_slack` and one rounding of the
+            // largest summand per step of the stepped sums (≤ 2·extent steps)
+            let extent = v.iter().fold(0.0f64, |m, q| m.max(q.0).max(q.1));
+            let tol_z_strict = 0.005 * (zhi - zlo) + 1e-5 * zabs + 0.001 * gz_len;
+            let tol_z = if large { tol_z_strict + pos_slack * gz_len + 1.2e-7 * extent * zabs } else { tol_z_strict };
             let err_z = (f.pos[2] as f64 - ze).abs();
-            rep.worst("depth_err/tol", err_z / tol_z, 1.0, String::new);
+            rep.worst(if large { "depth_err/tol(large extent, drift model)" } else { "depth_err/tol" }, err_z / tol_z, 1.0, String::new);
+            if large && err_z > tol_z_strict && err_z <= tol_z {
+                rep.count("large_extent.depth_errors_within_the_F9_drift_model");
+            }
             if !(err_z <= tol_z) {
                 rep.violation(
                     "raster.frag_depth_wrong",
@@ -140,8 +157,13 @@ pub fn judge<A: Attr>(rep: &mut Report, p: &[[f32; 3]; 3], a: &[[f32; MAXC]; 3])
                 // few ulps of their largest value, and the quotient amplifies
                 // that by (largest 1/w)/(1/w here) — what remains when the
                 // attribute is (nearly) constant and 0.5 % of its range is ≈ 0
-                let tol = 0.005 * arange[c] + 1e-5 * amax[c] * (zhi.abs().max(zlo.abs()) / ze.abs()).clamp(1.0, 100.0) + 0.001 * g + 1e-30;
+                let tol_strict = 0.005 * arange[c] + 1e-5 * amax[c] * (zhi.abs().max(zlo.abs()) / ze.abs()).clamp(1.0, 100.0) + 0.001 * g + 1e-30;
+                let a_in_max = av.iter().fold(0.0f64, |m, x| m.max(x.abs()));
+                let tol = if large { tol_strict + pos_slack * g + 1.2e-7 * extent * (a_in_max + ae.abs() * zabs) / ze.abs() } else { tol_strict };
                 let err = (f.var[c] as f64 - ae).abs();
+                if large && err > tol_strict && err <= tol {
+                    rep.count("large_extent.attribute_errors_within_the_F9_drift_model");
+                }
                 if err <= tol {
                     rep.worst(if is_color::<A>() { "attr_err/tol(colour types)" } else { "attr_err/tol" }, err / tol, 1.0, || format!("{} {p:?} a={:?} centre {centre:?} got {} exp {ae} tol {tol:.3e} = 0.005*{:.3e} + 1e-5*{:.3e} + 0.001*{g:.3e}", A::NAME, [&a[0][..A::N], &a[1][..A::N], &a[2][..A::N]], f.var[c], arange[c], amax[c]));
                     continue;
@@ -294,6 +316,36 @@ pub fn run(cfg: &Cfg, rep: &mut Report) {
         9 => one::<((Vec2, f32), Vec2)>(rng, rep, i),
         _ => one::<(Color3f, Point2)>(rng, rep, i),
     });
+    // Stream 1: C04's large-extent class (frames of 256..2048 px). Finiteness
+    // and "at the pixel centre" are judged strictly; values under the
+    // positional drift known finding F9 describes (6e-8·extent·(height+2) px)
+    // and the accumulated rounding of the stepped sums.
+    rep.run_stream(cfg, 1, "large_extent", cfg.n(4_000, 200_000), |rng, i, rep| {
+        let ext = rng.pick(&[256.0f32, 512.0, 1024.0, 2048.0]);
+        let (p, a, _) = gen_case::<f32>(rng, ext);
+        let mut h = Hasher::new();
+        for v in &p {
+            h.f32s(v);
+        }
+        rep.case(h.get(), true);
+        rep.count("large_extent.cases");
+        let (ylo, yhi) = p.iter().fold((f32::INFINITY, f32::NEG_INFINITY), |(lo, hi), v| (lo.min(v[1]), hi.max(v[1])));
+        let _ = (ylo, yhi);
+        // the positional bound of known finding F9
+        let drift = 6e-8 * (ext as f64) * (ext as f64);
+        match i % 3 {
+            0 => judge_with::<f32>(rep, &p, &a, drift, true),
+            1 => {
+                let (p, a, _) = gen_case::<Vec3>(rng, ext);
+                judge_with::<Vec3>(rep, &p, &a, drift, true)
+            }
+            _ => {
+                let (p, a, _) = gen_case::<Color4f>(rng, ext);
+                judge_with::<Color4f>(rep, &p, &a, drift, true)
+            }
+        }
+    });
+    rep.floor("large_extent.cases", 2_000);
     rep.floor("fragments_judged", 20_000_000);
     rep.floor("attr.component_constant_over_the_triangle", 20_000);
     rep.floor("shape.half_exactly_one_row_high", 2_000);
